@@ -4,7 +4,7 @@
    every pair the walk reports is found by apropos) is not proved here; it is
    checked on every run by the tie and the Python Spec oracle. *)
 From Coq Require Import List ZArith Bool.
-From RtoscV Require Import Ports.NameModel Ports.PathModel Ports.WalkModel Ports.WalkProofs.
+From RtoscV Require Import Match.PatSpec Match.MatchModel Ports.NameModel Ports.PathModel Ports.WalkModel Ports.WalkProofs.
 Import ListNotations.
 Local Open Scope Z_scope.
 
